@@ -405,5 +405,42 @@ def run(ctx):
               "self._xl_ctx store changed")
     # XL forces: same force assembly discipline as the SCF path (shared with C01)
     ctx.rule("R6", "XL force assembly: force = -dL/dx of the XL Hf, gradient buffer zeroed after each read")
+    ctx.rule("R7", "the potential energy reported (and used as the energy-control reference) by the XL engines is the shadow free energy Etot + electronic entropy term")
+    _r7_shadow_potential(ctx, repo)
     from ..forcerules import check_force_assembly
     check_force_assembly(ctx, "R6", which=("seqm/dynamics/xlbomd.py::ForceXL.forward",))
+
+
+def _r7_shadow_potential(ctx, repo):
+    """With fractional occupations (finite electronic temperature, KSA) the quantity conserved to O(dt^2) by XL-BOMD is
+    E_tot(D,P) + the electronic-entropy term published by the XL energy path.  Every XL engine must resolve `_thermo_potential`
+    (the hook the run loop uses for Ep, for the conserved-quantity report and for the energy-shift control) to a definition that adds
+    molecule.Electronic_entropy to molecule.Etot, and the run loop must read the potential through that hook."""
+    md = repo.mod(MD)
+    for cname in ("XL_BOMD", "KSA_XL_BOMD", "XL_ESMD"):
+        if cname not in md.classes:
+            raise AnalysisError(f"class {cname} not found")
+        hit = repo.find_method(md, md.classes[cname], "_thermo_potential")
+        if hit is None:
+            ctx.fail("R7", md, md.classes[cname], cname, "_thermo_potential", f"{cname} has no _thermo_potential")
+            continue
+        hm, hc, hf = hit
+        rets = [r for r in ast.walk(hf) if isinstance(r, ast.Return) and r.value is not None]
+        attrs = {x.attr for r in rets for x in ast.walk(r.value) if isinstance(x, ast.Attribute) and isinstance(x.value, ast.Name) and x.value.id in ("molecule", "mol")}
+        plus = all(isinstance(r.value, ast.BinOp) and isinstance(r.value.op, ast.Add) for r in rets)
+        ctx.check(bool(rets) and {"Etot", "Electronic_entropy"} <= attrs and plus, "R7", hm, hf, f"{hc.name}._thermo_potential", f"{cname} -> {hc.name}._thermo_potential",
+                  f"{cname} reports Ep = molecule.Etot + molecule.Electronic_entropy (resolved to {hc.name}._thermo_potential)",
+                  f"{cname} resolves _thermo_potential to {hc.name}._thermo_potential which returns `{[norm(r.value) for r in rets]}`: the electronic-entropy term is missing from the "
+                  f"reported potential energy, so with fractional occupations (KSA, finite T_el) the reported conserved quantity no longer follows the dt^2 law and the "
+                  f"energy-shift control uses the wrong reference")
+    run = md.func("Molecular_Dynamics_Basic.run")
+    vdefs = [st for st in ast.walk(run) if isinstance(st, ast.Assign) and isinstance(st.targets[0], ast.Name) and st.targets[0].id in ("V", "V0")]
+    ctx.check(bool(vdefs) and all(isinstance(st.value, ast.Call) and callee_attr(st.value) == "_thermo_potential" for st in vdefs), "R7", md, vdefs[0] if vdefs else run,
+              "Molecular_Dynamics_Basic.run", "V = self._thermo_potential(molecule)", "the run loop reads the potential energy through the engine's hook",
+              f"the run loop computes the potential as {[norm(st.value) for st in vdefs]}")
+    # the entropy term is published by the XL electronic-structure path
+    es = repo.mod("seqm/ElectronicStructure.py")
+    f = es.func("Electronic_Structure.forward")
+    published = any(isinstance(x, ast.Attribute) and x.attr == "Electronic_entropy" and isinstance(x.ctx, ast.Store) for x in ast.walk(f))
+    ctx.check(published, "R7", es, f, "Electronic_Structure.forward", "molecule.Electronic_entropy", "the XL electronic-structure path publishes molecule.Electronic_entropy",
+              "molecule.Electronic_entropy is no longer assigned by Electronic_Structure.forward")
